@@ -14,7 +14,7 @@ The hand-written character scanner of `FormatString.__init__` (the `while True:`
 Shared by both sides (trusted, see `DESIGN-notes/pyfmt.md`): the kit `Model/PyFmtPy.lean`, the dumped `_info` character sets and `SSIZE_MAX`.
 -/
 namespace I18n.Props.C12Tie
-open I18n I18n.PyFmt I18n.PyFmt.Py I18n.Spec.CPyPercent I18n.Spec.PyFmtArgs I18n.Generated
+open I18n I18n.PyFmt I18n.PyFmt.Py I18n.PyFmt.G I18n.Spec.CPyPercent I18n.Spec.PyFmtArgs I18n.Generated
 
 /-! ## the regenerated definitions are the model -/
 
@@ -22,7 +22,7 @@ open I18n I18n.PyFmt I18n.PyFmt.Py I18n.Spec.CPyPercent I18n.Spec.PyFmtArgs I18n
     with the keyword arguments the scanner passes for the directive `d` and a directive text `s` that ends in the conversion
     character (the `assert s[-1] == conv`), = `PyFmt.conversion w st d`: the type, the parent afterwards, or the exception -/
 theorem generated_conversion_eq_model (w : Bool) (st : St) (s : List Char) (d : Directive) (hs : s.getLast? = some d.conv) :
-    PyFmtConv.Conversion.__init__ w st s d.key d.flags (Gen.widthArg d) (Gen.varWidth d) (Gen.precArg d) (Gen.varPrec d) d.length d.conv
+    PyFmtConv.Conversion.__init__ w st s d.key d.flags (widthArgOf d) (varWidthOf d) (precArgOf d) (varPrecOf d) d.length d.conv
       = (conversion w st d).map (fun r => (r.2.toList, r.1)) :=
   Gen.conversion_eq w st s d hs
 
@@ -42,33 +42,12 @@ theorem generated_add_argument_raw (st : St) (key : Option (List Char)) (arg : E
 
 /-! ## the parser with the regenerated constructor -/
 
-/-- `Conversion(self, s[i:j+1], …)` as regenerated, on a scanned directive (the directive text is represented by its last
-    character, which is all `Conversion.__init__` looks at) -/
-def conversionG (w : Bool) (st : St) (d : Directive) : Except PErr (St × String) :=
-  (PyFmtConv.Conversion.__init__ w st [d.conv] d.key d.flags (Gen.widthArg d) (Gen.varWidth d) (Gen.precArg d) (Gen.varPrec d)
-    d.length d.conv).map (fun r => (r.2, String.ofList r.1))
-
 theorem conversionG_eq (w : Bool) (st : St) (d : Directive) : conversionG w st d = conversion w st d := by
   unfold conversionG
   rw [generated_conversion_eq_model w st [d.conv] d rfl]
   cases conversion w st d with
   | error e => rfl
   | ok r => simp [Except.map]
-
-/-- the model's `loop` with the regenerated `Conversion.__init__` in place of `conversion` -/
-def loopG (w : Bool) : Nat → List Char → List Char → St → Except PErr St
-  | 0, _, _, _ => .error (.crash .NonTermination)
-  | _ + 1, [], text, st => .ok (flush text st)
-  | fuel + 1, c :: cs, text, st =>
-    if c != '%' then loopG w fuel cs (c :: text) st
-    else
-      match scanDirective cs with
-      | none => .error .Error
-      | some (d, rest) =>
-        let st := flush text st
-        match conversionG w st d with
-        | .error e => .error e
-        | .ok (st, tp) => loopG w fuel rest [] { st with items := st.items ++ [.conv tp] }
 
 theorem loopG_eq (w : Bool) : ∀ fuel cs text st, loopG w fuel cs text st = loop w fuel cs text st := by
   intro fuel
@@ -91,21 +70,13 @@ theorem loopG_eq (w : Bool) : ∀ fuel cs text st, loopG w fuel cs text st = loo
           | error e => rfl
           | ok r => obtain ⟨st', tp⟩ := r; exact ih _ _ _
 
-/-- `FormatString(s)` with the regenerated `Conversion.__init__` -/
-def parseG (s : List Char) : Except PErr Result :=
-  match loopG true (s.length + 1) s [] St.init with
-  | .error e => .error e
-  | .ok st =>
-    let gs := groups st.map
-    if gs.all (fun g => sameType g.2) then
-      .ok { seq := st.seq, seqConversions := st.seq.filter (fun e => e.kind == .conv), map := gs, warnings := st.warnings, items := st.items }
-    else .error .ArgumentTypeMismatch
-
 /-- the parser with the regenerated constructor is the model's parser -/
-theorem generated_parse_eq_model (s : List Char) : parseG s = parse s := by
-  unfold parseG parse parseW
+theorem generated_parseW_eq_model (w : Bool) (s : List Char) : parseWG w s = parseW w s := by
+  unfold parseWG parseW
   rw [loopG_eq]
-  cases loop true (s.length + 1) s [] St.init <;> rfl
+  cases loop w (s.length + 1) s [] St.init <;> rfl
+
+theorem generated_parse_eq_model (s : List Char) : parseG s = parse s := generated_parseW_eq_model true s
 
 /-! ## the headline theorems of C12, of the parser with the regenerated constructor -/
 
